@@ -89,11 +89,13 @@ CorsObsOK(c, o) ==
 RespCells == {[rev |-> r, b64 |-> b, jsonp |-> jp, ae |-> a, threshold |-> th, flag |-> f, size |-> s, kind |-> k, j |-> j] :
                 r \in Revs, b \in B64s, jp \in Jsonps, a \in AEs, th \in Thresholds, f \in Flags, s \in Sizes, k \in Kinds, j \in Js}
 ValidResp(c) == (c.jsonp => c.b64) /\ (~c.jsonp => c.j = "seven")
-\* hold: the handshaking goroutine is held right after the session object is constructed (its open packet is already on its
-\* way out on another goroutine): cookie and header events must not depend on who is faster
+\* hold: the handshaking goroutine is held inside or right after the construction of the session object (in a server-level
+\* flush/drain listener, or at the yield point after the constructor) while its open packet is already on its way out on
+\* another goroutine: cookie and header events must not depend on who is faster
 CookieCells == {[cookie |-> k, transport |-> t, step |-> st, hold |-> h] : k \in Cookies, t \in HsTransports,
-                   st \in {"handshake", "poll", "post", "poll2", "postclose", "pollclose"}, h \in BOOLEAN}
-ValidCookie(c) == (c.transport = "polling" \/ c.step = "handshake") /\ (c.hold => c.step = "handshake" /\ c.transport = "polling")
+                   st \in {"handshake", "poll", "post", "poll2", "postclose", "pollclose"},
+                   h \in {"none", "handshake.constructed", "S.flush", "S.drain"}}
+ValidCookie(c) == (c.transport = "polling" \/ c.step = "handshake") /\ (c.hold # "none" => c.step = "handshake" /\ c.transport = "polling")
 \* step: "first" = the request is a handshake (or a preflight); "bigpoll" = a later poll of the session whose response is large
 \* enough to be compressed (the transport adds headers of its own to such a response)
 CorsCells == {[policy |-> p, creds |-> cr, origin |-> o, preflight |-> pf, continue |-> cn, status |-> st, step |-> sp] :
